@@ -16,6 +16,7 @@ cp /repo/go.sum build/hsrc/go.sum
 (cd coq && coq_makefile -f _CoqProject -o Makefile >/dev/null 2>&1 && timeout 3000 make -j16 2>&1 | grep -v '^COQC\|^COQDEP\|^Closed under' || true)
 (cd coq && make -j16 >/dev/null 2>&1)
 sh runner/build.sh
+./check --warm-props
 # no Admitted/Axiom anywhere in the development
 if grep -rnE '\b(Admitted|admit|Axiom|Parameter|Conjecture|bypass_check|Unset Guard)\b' coq/theories coq/proofs coq/props --include=*.v | grep -v '(\*'; then
   echo "forbidden declaration found"; exit 1
